@@ -28,6 +28,7 @@ type HarnessSpec struct {
 	Schedule bool             `json:"schedule"`
 	Race     bool             `json:"race"`
 	NoReplay bool             `json:"no_replay"`
+	Stubs    map[string]string `json:"stubs"`
 	MaxPaths map[string]int   `json:"max_paths"`
 	Note     string           `json:"note"`
 }
@@ -390,6 +391,18 @@ func runCheck(id, tier string, workers int, only string, noReplay, verbose bool)
 		}
 		if totalBudget > 0 {
 			cfg.Deadline = time.Now().Add(time.Duration(totalBudget) * time.Second)
+		}
+		// harness-specific stubs on top of the sidecar-wide ones
+		ld.P.stubs = map[string]*ssa.Function{}
+		for callee, repl := range sc.Stubs {
+			ld.P.stubs[callee] = findFunc(ld.P.prog, repl)
+		}
+		for callee, repl := range hs.Stubs {
+			f := findFunc(ld.P.prog, repl)
+			if f == nil {
+				die(2, "stub replacement %s not found", repl)
+			}
+			ld.P.stubs[callee] = f
 		}
 		ex := &Explorer{P: ld.P, cfg: cfg}
 		if hs.MaxPaths != nil {
